@@ -24,8 +24,29 @@ import traceback
 
 VERIF = os.path.dirname(os.path.dirname(os.path.abspath(__file__)))
 REPO = os.environ.get("VERIF_REPO_DIR", "/repo")
-BUILD = os.path.join(VERIF, ".build")
+BUILD = os.environ.get("VERIF_BUILD_DIR") or os.path.join(VERIF, ".build")
 SHIM = os.path.join(VERIF, "shim")
+if REPO != "/repo":
+    # development aid (seeded-change evaluation in a scratch worktree while /repo stays untouched): a copy of the shim whose
+    # path dependency names that tree, built into VERIF_BUILD_DIR. The registered checks never set VERIF_REPO_DIR.
+    if not os.environ.get("VERIF_BUILD_DIR"):
+        raise SystemExit("VERIF_REPO_DIR needs VERIF_BUILD_DIR")
+    _alt = os.path.join(BUILD, "shim-src")
+    os.makedirs(_alt, exist_ok=True)
+    import shutil as _sh
+    for _r, _ds, _fs in os.walk(SHIM):
+        if "target" in _ds:
+            _ds.remove("target")
+        _dst = os.path.join(_alt, os.path.relpath(_r, SHIM))
+        os.makedirs(_dst, exist_ok=True)
+        for _f in _fs:
+            _b = open(os.path.join(_r, _f), "rb").read()
+            if _f == "Cargo.toml":
+                _b = _b.replace(b'path = "/repo"', b'path = "%s"' % REPO.encode())
+            _t = os.path.join(_dst, _f)
+            if not os.path.exists(_t) or open(_t, "rb").read() != _b:
+                open(_t, "wb").write(_b)
+    SHIM = _alt
 NCPU = min(16, os.cpu_count() or 4)
 
 CARGO_ENV = {"CARGO_NET_OFFLINE": "true"}
@@ -69,11 +90,21 @@ VARIANTS = {
         env={"RUSTFLAGS": "--cfg physis_verif --cfg verif_cov -Cinstrument-coverage", "LLVM_PROFILE_FILE": os.path.join(VERIF, ".build", "cov-build-%p.profraw")},
         bin="debug/verif-shim",
     ),
+    # valgrind memcheck over the plain release build (uninitialised-value use, which neither ASan nor the native monitors see;
+    # invalid reads / writes / frees; definite leaks at exit). Shares the release target directory.
+    "memcheck": dict(
+        cmd=["cargo", "build", "--offline", "--release"],
+        env={"RUSTFLAGS": "--cfg physis_verif"},
+        bin="release/verif-shim",
+        tdir="release",
+        wrap=["valgrind", "--quiet", "--error-exitcode=97", "--leak-check=full", "--show-leak-kinds=definite",
+              "--errors-for-leak-kinds=definite", "--num-callers=40", "--track-origins=yes"],
+    ),
     # the UB / leak interpreter: no binary of its own, the worker is `cargo miri run` of the same shim (interactive protocol
     # over stdin works with isolation disabled); the build step interprets an empty script so that everything is compiled once
     "miri": dict(
         cmd=["cargo", "+nightly", "miri", "run", "--offline", "-q", "--", "--script", "/dev/null"],
-        env={"RUSTFLAGS": "--cfg physis_verif", "MIRIFLAGS": "-Zmiri-disable-isolation", "VERIF_NO_WARM": "1"},
+        env={"RUSTFLAGS": "--cfg physis_verif", "MIRIFLAGS": "-Zmiri-disable-isolation", "VERIF_NO_WARM": "1", "VERIF_TOUCH": "1"},
         bin=None,
     ),
 }
@@ -84,8 +115,8 @@ def build(variant, quiet=True):
     """Build the shim variant from /repo's current working tree; returns the binary path."""
     v = VARIANTS[variant]
     os.makedirs(BUILD, exist_ok=True)
-    tdir = os.path.join(BUILD, variant)
-    lock = open(os.path.join(BUILD, variant + ".lock"), "w")
+    tdir = os.path.join(BUILD, v.get("tdir", variant))
+    lock = open(os.path.join(BUILD, v.get("tdir", variant) + ".lock"), "w")
     fcntl.flock(lock, fcntl.LOCK_EX)
     try:
         env = _cargo_env(dict(v["env"], CARGO_TARGET_DIR=tdir))
@@ -100,6 +131,10 @@ def build(variant, quiet=True):
         lock.close()
     if v["bin"] is None:
         return ["cargo", "+nightly", "miri", "run", "--offline", "-q", "--manifest-path", os.path.join(SHIM, "Cargo.toml"), "--"]
+    if v.get("wrap"):
+        if not shutil.which(v["wrap"][0]):
+            raise BuildError("%s is not installed" % v["wrap"][0])
+        return v["wrap"] + [os.path.join(tdir, v["bin"])]
     return os.path.join(tdir, v["bin"])
 
 
@@ -150,7 +185,8 @@ class Worker:
         self.seq = 0
         self.generation = 0
         self.extra_env = extra_env or {}
-        self.rlimit_as = rlimit_as and variant not in ("asan", "miri")
+        self.rlimit_as = rlimit_as and variant not in ("asan", "miri", "memcheck")
+        self.err_seen = 0
         self.errpath = os.path.join(scratch, "worker-%s-%d.stderr" % (variant, os.getpid()))
         self.commands = 0
         self.restarts = 0
@@ -176,6 +212,9 @@ class Worker:
             env["ASAN_SYMBOLIZER_PATH"] = shutil.which("llvm-symbolizer-14") or shutil.which("llvm-symbolizer") or ""
         if self.variant == "miri":
             env.update(_cargo_env(dict(VARIANTS["miri"]["env"], CARGO_TARGET_DIR=os.path.join(BUILD, "miri"))))
+        if self.variant == "memcheck":
+            env["VERIF_NO_WARM"] = "1"
+            env["VERIF_TOUCH"] = "1"
         if self.variant == "cov":
             env["LLVM_PROFILE_FILE"] = os.path.join(BUILD, "cov-profiles", "%p-%m.profraw")
         env.update(self.extra_env)
@@ -186,7 +225,8 @@ class Worker:
         )
         self.buf = b""
         self.generation += 1
-        line = self._readline(60 if self.variant != "miri" else 600)
+        self.err_seen = 0
+        line = self._readline(60 if self.variant not in ("miri", "memcheck") else 600)
         if line is None or b"ready" not in line:
             raise RuntimeError("worker did not start: %r %s" % (line, self.stderr_tail()))
 
@@ -215,6 +255,18 @@ class Worker:
                 data = f.read()
             return data[-n:].decode("utf-8", "replace")
         except OSError:
+            return ""
+
+    def _new_stderr(self):
+        try:
+            if self.proc is not None:
+                self.errf.flush()
+            with open(self.errpath, "rb") as f:
+                f.seek(self.err_seen)
+                data = f.read()
+            self.err_seen += len(data)
+            return data.decode("utf-8", "replace")
+        except (OSError, ValueError):
             return ""
 
     def _reap(self):
@@ -323,6 +375,12 @@ class Worker:
                 rec = Rec(j)
                 rec["oversize"] = oversize
                 break
+        if self.variant == "memcheck":
+            # valgrind writes its reports to stderr as they happen: what appeared during this command belongs to it
+            txt = self._new_stderr()
+            m = MEMCHECK_RE.search(txt)
+            if m:
+                rec["memcheck"] = dict(what=memcheck_class(m.group(0)), text=txt[max(0, m.start() - 200):m.start() + 12000])
         rec["args"] = [str(a) if not isinstance(a, bytes) else a.hex() for a in args]
         rec.setdefault("skew", skew)
         rec["variant"] = self.variant
@@ -343,7 +401,37 @@ class Worker:
         return 0, ""
 
 
+MEMCHECK_RE = re.compile(r"==\d+== (Invalid (read|write|free)|Conditional jump or move depends on uninitialised|Use of uninitialised value|"
+                         r"Syscall param \S+ (points to|contains) uninitialised|Mismatched free|Source and destination overlap|"
+                         r"[\d,]+ (\([^)]*\) )?bytes in [\d,]+ blocks are definitely lost)[^\n]*")
+
+
+def memcheck_class(line):
+    t = re.sub(r"^==\d+== ", "", line)
+    if "definitely lost" in t:
+        return "memcheck(leak)"
+    t = re.sub(r" of size \d+", "", t)
+    return "memcheck(%s)" % "-".join(t.lower().split()[:4])
+
+
+def memcheck_site(text):
+    """first frame of a valgrind report that lies in the tree under test (valgrind prints base names: resolved under src/)"""
+    for m in re.finditer(r"(?:at|by) 0x[0-9A-F]+: (\S+).*? \(([A-Za-z0-9_]+\.rs):(\d+)\)", text):
+        sym, base, line = m.group(1), m.group(2), int(m.group(3))
+        if "physis" not in sym:
+            continue
+        for r, ds, fs in os.walk(os.path.join(REPO, "src")):
+            if base in fs:
+                rel = os.path.relpath(os.path.join(r, base), REPO)
+                t = source_line(rel, line)
+                if t:
+                    return rel, t
+    return "", ""
+
+
 def classify_death(rc, tail):
+    if re.search(r"==\d+== Stack overflow in thread", tail):
+        return "stack-overflow"
     if "error: Undefined Behavior" in tail:
         return "miri(undefined-behavior)"
     if "error: unsupported operation" in tail:
@@ -467,10 +555,16 @@ def monitor_verdicts(rec, input_bytes, residual=True, entry=None):
         out.append(dict(kind="abort", sig=dict(kind="abort", entry=entry, what=what, file=site, line_text=text),
                         detail=dict(stderr=rec.get("stderr", "")[-3000:], oversize=rec.get("oversize"))))
         return out
+    if rec.get("memcheck"):
+        site, text = memcheck_site(rec["memcheck"]["text"])
+        out.append(dict(kind="sanitizer", sig=dict(kind="sanitizer", entry=entry, what=rec["memcheck"]["what"], file=site, line_text=text),
+                        detail=dict(stderr=rec["memcheck"]["text"])))
     mon = rec.get("mon") or {}
     if mon:
         cpu = mon.get("cpu_us", 0)
         budget = CPU_BASE_US + CPU_PER_MIB_US * input_bytes / (1 << 20)
+        if rec.get("variant") == "memcheck":
+            budget *= 60  # valgrind's slowdown is 20-50x; the CPU clause is decided by the native stages
         if cpu > budget:
             out.append(dict(kind="cpu", sig=dict(kind="cpu", entry=entry), detail=dict(cpu_us=cpu, budget_us=budget)))
         lim = alloc_limit(input_bytes)
@@ -717,6 +811,14 @@ class ShardCtx:
                     self.violation("sanitizer", dict(kind="sanitizer", entry="exit", what=classify_death(rc, tail), file=site, line_text=text), dict(stderr=tail[-3000:]))
                 elif rc not in (0, None) and "error: unsupported operation" in tail:
                     self.inconclusive("miri: unsupported operation at exit")
+            if self.variant == "memcheck":
+                self.stats.monitor["memcheck_processes"] += 1
+                txt = self._w._new_stderr()
+                m = MEMCHECK_RE.search(txt)
+                if m:
+                    site, text = memcheck_site(txt[m.start():])
+                    self.violation("sanitizer", dict(kind="sanitizer", entry="exit", what=memcheck_class(m.group(0)), file=site, line_text=text),
+                                   dict(stderr=txt[max(0, m.start() - 200):m.start() + 12000]))
             if self.variant == "asan" and ("ERROR: LeakSanitizer" in tail or "ERROR: AddressSanitizer" in tail):
                 site, text = sanitizer_site(tail)
                 self.violation("sanitizer", dict(kind="sanitizer", entry="exit", what=classify_death(rc, tail), file=site, line_text=text),
